@@ -365,7 +365,7 @@ func TestVerifC17SM4(t *testing.T) {
 						continue
 					}
 					g := ref.NewGCM(key)
-					const nw = 6
+					const nw = 10
 					type job struct{ nonce, aad, pt, want []byte }
 					jobs := make([]job, nw)
 					for i := range jobs {
@@ -376,11 +376,17 @@ func TestVerifC17SM4(t *testing.T) {
 					start := make(chan struct{})
 					var wg sync.WaitGroup
 					bad := int64(0)
+					arrived := int64(0)
 					for i := 0; i < nw; i++ {
 						wg.Add(1)
 						go func(j job, sealFirst bool) {
 							defer wg.Done()
 							<-start
+							// a spinning barrier: the first calls are to fall into the same few hundred nanoseconds (what is set up on
+							// first use is written by assembly, which the race detector does not see: only simultaneity shows it)
+							atomic.AddInt64(&arrived, 1)
+							for spins := 0; atomic.LoadInt64(&arrived) < nw && spins < 2000000; spins++ {
+							}
 							if sealFirst {
 								if !bytes.Equal(a.Seal(nil, j.nonce, j.pt, j.aad), j.want) {
 									atomic.AddInt64(&bad, 1)
